@@ -17,14 +17,26 @@ FCH1, FOFF, TSAMP = 1500.0, -10.0, 1e-3
 def make_file(case, d):
     rng = random.Random(case["dseed"])
     data = spfiles.rand_data(rng, case["N"], case["C"], case["nbits"])
-    files = spfiles.write_fil_set(d, data, case["nbits"], case["splits"], tsamp=TSAMP, fch1=FCH1, foff=FOFF)
+    fch1, foff = band_of(case)
+    files = spfiles.write_fil_set(d, data, case["nbits"], case["splits"], tsamp=TSAMP, fch1=fch1, foff=foff)
     return files, data
 
 
-def delays_for(C, dm):
-    """independent evaluation of the dispersion law (float64), rounded to nearest sample"""
-    f = FCH1 + FOFF * np.arange(C)
-    return np.rint(4.148808e3 * dm * (f ** -2.0 - FCH1 ** -2.0) / TSAMP).astype(int)
+def band_of(case):
+    """(fch1, foff): the usual descending band, or the same band stored low-to-high"""
+    return (FCH1 + FOFF * 30, -FOFF) if case.get("asc") else (FCH1, FOFF)
+
+
+def delays_for(C, dm, fch1=FCH1, foff=FOFF):
+    """independent evaluation of the dispersion law (float64) relative to the first channel, rounded to nearest sample"""
+    f = fch1 + foff * np.arange(C)
+    return np.rint(4.148808e3 * dm * (f ** -2.0 - fch1 ** -2.0) / TSAMP).astype(int)
+
+
+def rereference(dl):
+    """delays referred to the earliest channel, so that none is negative (what the streamed paths do)"""
+    dl = np.asarray(dl, dtype=int)
+    return dl - min(0, int(dl.min()))
 
 
 class C06(Prop):
@@ -33,7 +45,7 @@ class C06(Prop):
             "files) for gulps incl. gulp<2*maxdelay, gulp not dividing the range, gulp>range, and sub-ranges; each "
             "compared with the NumPy definition on samples [start,start+nsamps) and with the model. Integer data so "
             "float32 sums are exact. Non-trivial = >=2 blocks; distinct by full case.")
-    assumptions = ["integer-valued samples (float32 sums exact)", "descending band, DM >= 0 (delays >= 0)",
+    assumptions = ["integer-valued samples (float32 sums exact)", "delays of either sign relative to fch1 (ascending bands, negative DMs) are referred to the earliest channel",
                    "the delay vector is taken from the implementation and checked against the law in C09"]
     regimes_expected = ["collapse", "bandpass", "read_chan", "dedisperse", "stats", "subrange", "gulp<2maxdelay"]
     budget_s = (150, 1200)
@@ -46,14 +58,16 @@ class C06(Prop):
         nf = rng.choice((1, 1, 2))
         op = op or rng.choice(("collapse", "bandpass", "read_chan", "dedisperse", "dedisperse", "stats"))
         dm = 0.0
+        asc = False
         if op == "dedisperse":
-            dm = rng.choice((0.0, 5.0, 20.0, 50.0, 110.0))
+            dm = rng.choice((0.0, 5.0, 20.0, 50.0, 110.0, -20.0, -60.0))
+            asc = rng.random() < 0.35      # negative delays relative to fch1: ascending band at DM > 0, or DM < 0
         sub = rng.random() < 0.5
         s = rng.randrange(0, N) if sub else 0
         n = rng.randint(1, N - s) if sub else N - s
         g = rng.choice((1, 2, 3, 4, 7, n, n + 3, rng.randint(1, n + 1)))
         return {"op": op, "nbits": nbits, "C": C, "N": N, "splits": spfiles.splits_of(rng, N, nf), "g": g, "s": s,
-                "n": n, "none_n": (not sub), "dm": dm, "ichan": rng.randrange(C), "dseed": rng.randrange(1 << 30),
+                "n": n, "none_n": (not sub), "dm": dm, "asc": asc, "ichan": rng.randrange(C), "dseed": rng.randrange(1 << 30),
                 "pre": prehist.gen_pre(rng, N, s, n)}
 
     def corpus(self):
@@ -86,8 +100,8 @@ class C06(Prop):
             elif op == "read_chan":
                 ts = fil.read_chan(case["ichan"], **kw)
             elif op == "dedisperse":
-                dl = [int(x) for x in np.atleast_1d(fil.header.get_dmdelays(case["dm"]))]
-                if max(dl) >= case["n"] or min(dl) < 0:
+                dl = [int(x) for x in rereference(np.atleast_1d(fil.header.get_dmdelays(case["dm"])))]
+                if max(dl) >= case["n"]:
                     return {"skip": "maxdelay>=n"}
                 ts = fil.dedisperse(case["dm"], **kw)
                 return {"data": [float(x) for x in ts.data], "nsamples": int(ts.header.nsamples), "delays": dl,
@@ -125,7 +139,7 @@ class C06(Prop):
         elif op == "read_chan":
             want = x[:, case["ichan"]]
         elif op == "dedisperse":
-            dl = delays_for(C, case["dm"])
+            dl = rereference(delays_for(C, case["dm"], *band_of(case)))
             md = int(dl.max())
             if list(dl) != obs["delays"]:
                 return None   # rounding-boundary disagreement about the delays: judged in C09
